@@ -10,7 +10,8 @@ EXTENDS FormulaBuilderOps, TLC
 
 CONSTANTS ReuseChecksCB,      \* TRUE in cycles.py:  cb <= ancset
           ReuseChecksCN,      \* TRUE in cycles.py:  not ancset & cn
-          SubtractBroken      \* TRUE in cycles.py:  child_content - child_cycles_broken is stored
+          SubtractBroken,     \* TRUE in cycles.py:  child_content - child_cycles_broken is stored
+          EvvSigned           \* TRUE in cycles.py:  the propagated value of a negatively referenced node is negated
 
 Opt == [ ac |-> TRUE, kd |-> FALSE, ka |-> FALSE, ma |-> 0 ]
 EmptySt == St(<< >>, << >>, << >>, << >>)
@@ -27,14 +28,16 @@ FirstHit(es, ancset) == LET ok == { i \in DOMAIN es : Reusable(es[i], ancset) }
 
 TrAppend(t, n, e) == IF n \in DOMAIN t THEN [ t EXCEPT ![n] = Append(@, e) ] ELSE (n :> <<e>>) @@ t
 
-RECURSIVE BC(_, _, _, _, _), BCKids(_, _, _, _, _, _)
+RECURSIVE BC(_, _, _, _, _, _, _), BCKids(_, _, _, _, _, _, _, _)
 
-\* _break_cycles(source, target, nodeid = key, ancestors = anc, ...): the sets cb / cn of the result are what the call adds to
-\* the caller's cycles_broken / content
-BC(g, s, t, key, anc) ==
+\* _break_cycles(source, target, nodeid = key, ancestors = anc, ..., is_evidence = isEv): the sets cb / cn of the result are what
+\* the call adds to the caller's cycles_broken / content.  evv = source.lookup_evidence (node -> TRUE / FALSE, the result of evidence
+\* propagation; empty when propagate_evidence is off): outside the evidence pass a node with a propagated value is replaced by it.
+BC(g, s, t, key, anc, evv, isEv) ==
   LET neg == key < 0
       n   == AbsKey(key)
   IN  IF key = 0 \/ key = FKey THEN Res(s, t, key, {}, {})               \* not probabilistic: returned as is
+      ELSE IF ~isEv /\ n \in DOMAIN evv THEN Res(s, t, IF EvvSigned THEN Signed(neg, evv[n]) ELSE evv[n], {}, {})      \* get_evidence_value(nodeid) is not probabilistic
       ELSE IF n \in anc THEN Res(s, t, FKey, {n}, {})                      \* cyclic node: node is False
       ELSE LET ancset == anc \cup {n}
                hit == IF n \in DOMAIN t THEN FirstHit(t[n], ancset) ELSE 0
@@ -44,7 +47,7 @@ BC(g, s, t, key, anc) ==
                     IF node.t = "atom"
                     THEN LET o == AddAtom(Opt, s, node.id, 0)
                          IN  Res(o.st, TrAppend(t, n, [ node |-> o.ret, cb |-> {}, cn |-> {} ]), Signed(neg, o.ret), {}, {})
-                    ELSE LET k == BCKids(g, s, t, node.ch, ancset, [ rets |-> << >>, cb |-> {}, cn |-> {} ])
+                    ELSE LET k == BCKids(g, s, t, node.ch, ancset, [ rets |-> << >>, cb |-> {}, cn |-> {} ], evv, isEv)
                              o == AddCompound(Opt, k.st, node.t, k.acc.rets, TRUE)
                              prob == o.ret # 0 /\ o.ret # FKey
                              e == [ node |-> o.ret, cb |-> k.acc.cb,
@@ -53,11 +56,11 @@ BC(g, s, t, key, anc) ==
                                  k.acc.cn \cup (IF prob THEN {n} ELSE {}))
 
 \* the list comprehension over node.children: left to right, one shared child_cycles_broken / child_content
-BCKids(g, s, t, ch, ancset, acc) ==
+BCKids(g, s, t, ch, ancset, acc, evv, isEv) ==
   IF ch = << >> THEN [ st |-> s, tr |-> t, acc |-> acc ]
-  ELSE LET r == BC(g, s, t, Head(ch), ancset)
+  ELSE LET r == BC(g, s, t, Head(ch), ancset, evv, isEv)
        IN  BCKids(g, r.st, r.tr, Tail(ch), ancset,
-                  [ rets |-> Append(acc.rets, r.ret), cb |-> acc.cb \cup r.cb, cn |-> acc.cn \cup r.cn ])
+                  [ rets |-> Append(acc.rets, r.ret), cb |-> acc.cb \cup r.cb, cn |-> acc.cn \cup r.cn ], evv, isEv)
 
 \* ---------------------------------------------------------------- graph families
 Reach1(g, k) == { AbsKey(g[k].ch[i]) : i \in DOMAIN g[k].ch } \ {0, FKey}
